@@ -122,7 +122,10 @@ def gen_history(rng, cfg=None):
         # an invalid file with a Manifest name in some directory
         if rng.random() < 0.12:
             d = rng.choice(info['dirs'])
-            p = ('Manifest' if d else 'Manifest.gz') if rng.random() < 0.7 else 'Manifest.bz2'
+            # a junk file with a compressed Manifest name in a sub-directory can collide with the file
+            # a later watermark save creates for that directory's Manifest (two physical files for one
+            # logical Manifest: statement silent); sub-directories get the plain name only
+            p = 'Manifest' if d else rng.choice(['Manifest.gz', 'Manifest.gz', 'Manifest.bz2'])
             p = p if not d else d + '/' + p
             # two physical files for one logical Manifest are generated only
             # next to the top-level Manifest (rarely): elsewhere the statement
